@@ -749,6 +749,96 @@ def judge_long_history(obs):
 
 
 # ---------------------------------------------------------------------------------------
+# state on disk across runs: the same filename used again
+# ---------------------------------------------------------------------------------------
+REUSE_CASES = (
+    # what is at the path before the run that is judged, and how long the judged history is
+    [{"before": {"kind": "tracker", "frames": n1}, "frames": n2, "via": "handle"}
+     for n1, n2 in ((5, 2), (5, 0), (3, 3), (2, 6), (12, 1), (1, 0))]
+    + [{"before": {"kind": k}, "frames": n2, "via": "handle"}
+       for k, n2 in (("emulsion_file", 2), ("tracklist_file", 0), ("text_file", 2), ("empty_file", 1), ("nothing", 2))]
+    + [{"before": {"kind": "solver", "t_range": 0.55}, "t_range": 0.25, "via": "solver"},
+       {"before": {"kind": "solver", "t_range": 0.15}, "t_range": 0.45, "via": "solver"}]
+)
+
+
+def _tiny_fields():
+    from pde import ScalarField, UnitGrid
+    grid = UnitGrid([8], periodic=False)
+    x = np.arange(8) + 0.5
+    shapes = [np.zeros(8)] + [((x > lo) & (x < hi)).astype(float) for lo, hi in ((1, 3), (2, 6), (4, 7), (0, 2), (5, 8))]
+    return grid, [ScalarField(grid, d) for d in shapes]
+
+
+def run_reuse_case(case, seed: int, tmpdir: str):
+    """Something is at the path already (the file of an earlier, possibly LONGER run of a tracker, a file of another
+    kind, nothing); then a tracker with that filename records a history and finalizes; the file is read back."""
+    from pde import DiffusionPDE
+    from droplets import DropletTracker, Emulsion, SphericalDroplet
+    from droplets.droplet_tracks import DropletTrackList
+    from droplets.emulsions import EmulsionTimeCourse
+    grid, fields = _tiny_fields()
+    rng = random.Random(seed)
+    path = os.path.join(tmpdir, "reused.hdf5")
+    if os.path.exists(path):
+        os.remove(path)
+
+    def drive(n, t0):
+        tr = DropletTracker(1, filename=path)
+        for i in range(n):
+            tr.handle(fields[rng.randrange(len(fields))], t0 + 0.5 * i)
+        tr.finalize()
+        return tr
+
+    def solve(t_range):
+        tr = DropletTracker(0.1, filename=path, threshold=0.4)
+        DiffusionPDE(diffusivity=0.2).solve(fields[2], t_range=t_range, dt=0.01, backend="numpy", tracker=[tr])
+        return tr
+
+    with quiet():
+        b = case["before"]
+        if b["kind"] == "tracker":
+            drive(b["frames"], 100.0)
+        elif b["kind"] == "solver":
+            solve(b["t_range"])
+        elif b["kind"] == "emulsion_file":
+            Emulsion([SphericalDroplet([3.0], 1.5), SphericalDroplet([6.0], 1.0)]).to_file(path)
+        elif b["kind"] == "tracklist_file":
+            etc = EmulsionTimeCourse([Emulsion([SphericalDroplet([3.0], 1.5)]), Emulsion([SphericalDroplet([3.25], 1.5)])],
+                                     times=[0.0, 1.0])
+            DropletTrackList.from_emulsion_time_course(etc, progress=False).to_file(path)
+        elif b["kind"] == "text_file":
+            with open(path, "w") as fp:
+                fp.write("not an HDF5 file\n" * 20)
+        elif b["kind"] == "empty_file":
+            open(path, "w").close()
+        try:
+            tr = solve(case["t_range"]) if case["via"] == "solver" else drive(case["frames"], 0.0)
+            recorded = canon_tc(tr.data)
+            read = canon_tc(EmulsionTimeCourse.from_file(path, progress=False))
+            out = {"recorded": recorded, "read": read, "error": None}
+        except Exception as e:  # noqa
+            out = {"recorded": None, "read": None, "error": type(e).__name__}
+    if os.path.exists(path):
+        os.remove(path)
+    return out
+
+
+def judge_reuse_case(case, obs):
+    what = f"file at the path before: {case['before']}"
+    if obs["error"]:
+        return [f"{what}: recording / finalize / from_file raised {obs['error']}"]
+    rec, rd = obs["recorded"], obs["read"]
+    if len(rd["times"]) != len(rec["times"]) or len(rd["emulsions"]) != len(rec["emulsions"]):
+        return [f"{what}: {len(rec['times'])} frames recorded, the file written by finalize reads back "
+                f"{len(rd['times'])} frames (times read: {[float(t) for t in rd['times']][:12]})"]
+    for i, (tr_, er, td, ed) in enumerate(zip(rec["times"], rec["emulsions"], rd["times"], rd["emulsions"])):
+        if float(tr_) != float(td) or er != ed:
+            return [f"{what}: frame {i} recorded (t={tr_}) reads back different (t={float(td)})"]
+    return []
+
+
+# ---------------------------------------------------------------------------------------
 # Coq literals
 # ---------------------------------------------------------------------------------------
 class Ids:
@@ -1158,6 +1248,18 @@ def check(ctx: vlib.Ctx) -> int:
                                "input": {"frames": n, "seed": ctx.seed, "grid": "UnitGrid([8])"}, "found": True,
                                "kind": "long"})
 
+    # ---- the same filename used again: what was on disk before must not show in what is read back
+    for k, case in enumerate(REUSE_CASES):
+        obs = run_reuse_case(case, ctx.seed + k, str(tmpdir))
+        fails = judge_reuse_case(case, obs)
+        ctx.case(["reuse", case, ctx.seed])
+        ctx.count("file_at_path_before_run", case["before"]["kind"] + (f"({case['before']['frames']} frames)" if "frames" in case["before"] else ""))
+        ctx.count("frames_recorded_over_existing_file", len(obs["recorded"]["times"]) if obs["recorded"] else obs["error"])
+        for f in fails[:1]:
+            violations.append({"what": "DropletTracker finalize over an existing file: " + f,
+                               "input": {**case, "seed": ctx.seed + k, "grid": "UnitGrid([8])"}, "found": True,
+                               "kind": "reuse"})
+
     # ---- correspondence inside Coq (needs the generated tables)
     if gen_ok and ok:
         ptab = parse_table_literal(vid, default_texts())
@@ -1228,6 +1330,13 @@ def replay(path: str) -> int:
         for n, o in obs["offline"].items():
             print(f"offline[{n}]:", o[0], o[1] if o[0] == "err" else
                   [[(c, bytes_to_floats(x)) for c, _, x in e] for e in o[1]["emulsions"]])
+    elif kind == "reuse":
+        d = vlib.BUILD / "cases" / "C14" / "replay_tmp"
+        d.mkdir(parents=True, exist_ok=True)
+        obs = run_reuse_case(case, case["seed"], str(d))
+        fails = judge_reuse_case(case, obs)
+        print("recorded:", obs["recorded"] and [float(t) for t in obs["recorded"]["times"]])
+        print("read    :", obs["read"] and [float(t) for t in obs["read"]["times"]], obs["error"] or "")
     elif kind == "long":
         d = vlib.BUILD / "cases" / "C14" / "replay_tmp"
         d.mkdir(parents=True, exist_ok=True)
